@@ -4,6 +4,7 @@ import (
 	"go/ast"
 	"go/token"
 	"go/types"
+	"sort"
 )
 
 // R24g — a declared flag is never swallowed as the value of the flag before it.
@@ -37,28 +38,88 @@ func init() {
 			}
 			cur := c.src(ix)
 			n++
-			okGuard := false
-			for _, ft := range factsOf(guardsAt(info, stack)) {
-				e := unparen(ft.E)
-				// strings.HasPrefix(params[i], "-") == false
-				if hc, isCall := e.(*ast.CallExpr); isCall && !ft.True {
+			// propositional check: (conjunction of the guards) ⇒ (¬HasPrefix(cur,"-") ∨ ¬declared(cur)), by
+			// truth table over the guards' leaf conditions
+			atom := func(e ast.Expr) (string, bool, bool) {
+				e = unparen(e)
+				if hc, isCall := e.(*ast.CallExpr); isCall {
 					if hf, ok := callee(info, hc).(*types.Func); ok && hf.Name() == "HasPrefix" && len(hc.Args) == 2 && c.src(hc.Args[0]) == cur {
 						if s, isS := constString(info, hc.Args[1]); isS && s == "-" {
-							okGuard = true
+							return "HP", false, true
 						}
 					}
 				}
-				// args.Flags[params[i]] != "" is false  /  == "" is true
-				if be, isB := e.(*ast.BinaryExpr); isB && (be.Op == token.NEQ || be.Op == token.EQL) {
-					x, y := be.X, be.Y
-					if isEmptyStr(info, x) {
-						x, y = y, x
+				if be, isB := e.(*ast.BinaryExpr); isB {
+					if be.Op == token.LAND || be.Op == token.LOR {
+						return "", false, false
 					}
-					if fx, isIx := unparen(x).(*ast.IndexExpr); isIx && isEmptyStr(info, y) && c.src(fx.Index) == cur {
-						if _, isMap := info.TypeOf(fx.X).Underlying().(*types.Map); isMap && (be.Op == token.NEQ) != ft.True {
-							okGuard = true
+					if be.Op == token.NEQ || be.Op == token.EQL {
+						x, y := be.X, be.Y
+						if isEmptyStr(info, x) {
+							x, y = y, x
+						}
+						if fx, isIx := unparen(x).(*ast.IndexExpr); isIx && isEmptyStr(info, y) && c.src(fx.Index) == cur {
+							if _, isMap := info.TypeOf(fx.X).Underlying().(*types.Map); isMap {
+								return "DECL", be.Op == token.EQL, true
+							}
 						}
 					}
+				}
+				if u, isU := e.(*ast.UnaryExpr); isU && u.Op == token.NOT {
+					return "", false, false
+				}
+				if id, isID := e.(*ast.Ident); isID && (id.Name == "true" || id.Name == "false") {
+					return "", false, false
+				}
+				return "x:" + c.src(e), false, true
+			}
+			var guards []Guard
+			for _, g := range guardsAt(info, stack) {
+				if g.Cond != nil {
+					guards = append(guards, g)
+				}
+			}
+			set := map[string]bool{"HP": true, "DECL": true}
+			var collect func(e ast.Expr)
+			collect = func(e ast.Expr) {
+				e = unparen(e)
+				if nm, _, ok := atom(e); ok {
+					set[nm] = true
+					return
+				}
+				switch x := e.(type) {
+				case *ast.BinaryExpr:
+					collect(x.X)
+					collect(x.Y)
+				case *ast.UnaryExpr:
+					collect(x.X)
+				}
+			}
+			for _, g := range guards {
+				collect(g.Cond)
+			}
+			var atoms []string
+			for k := range set {
+				atoms = append(atoms, k)
+			}
+			sort.Strings(atoms)
+			okGuard := len(atoms) <= 14
+			for m := 0; okGuard && m < 1<<len(atoms); m++ {
+				env := map[string]bool{}
+				for i, k := range atoms {
+					env[k] = m&(1<<i) != 0
+				}
+				hold := true
+				for _, g := range guards {
+					var unk []string
+					v := evalBool(g.Cond, atom, env, &unk)
+					if v == g.Neg {
+						hold = false
+						break
+					}
+				}
+				if hold && env["HP"] && env["DECL"] {
+					okGuard = false
 				}
 			}
 			c.Check(okGuard, "R24g", "ParseFlags:pending-value#"+itoa(n), call.Pos(), "%s takes the current parameter as the value of the pending flag only where the parameter is not a declared flag (no leading `-`, or the flag table has no entry for it) — otherwise `--str --bool x` stores \"--bool\" into --str", c.src(call))
